@@ -3,6 +3,8 @@ CONSTANTS
   RECENT = 3
   NoBlock = NoBlock
   NoTx = NoTx
+  VarBase = 2
+  BeyondHeadStops = FALSE
   MaxNew = 7
   MaxSib = 3
   MaxHeight = 7
